@@ -323,7 +323,7 @@ func checkTombstone(r *Run, rule string) {
 	}
 	// the only stores to Tombstoned store the constant true
 	for _, fn := range P.RepoFns {
-		Instrs(fn, func(in ssa.Instruction) {
+		InstrsRaw(fn, func(in ssa.Instruction) {
 			st, ok := in.(*ssa.Store)
 			if !ok {
 				return
